@@ -345,8 +345,57 @@ def lemma_injective(kmax):
     return fn
 
 
+def relative_fn(g):
+    """':name' dependencies resolve against the directory of the COND file that
+    lists them - through the real loader and `cond run`, several packages using
+    the same relative string in one invocation."""
+    import conductor.cli.run as cli_run
+    from vlib import graphs, fakeos
+    from vlib.hrun import TaskSpec
+    pk = ("", "a", "b", "a/c")
+    chosen = [pk[i] for i in range(len(pk)) if g.flag("pkg%d" % i)]
+    if not chosen:
+        return {"nontrivial": False, "sample": None}
+    rev = g.flag("rev")
+    specs = []
+    for p_ in chosen:
+        specs.append(TaskSpec("prep", "run_command", [], pkg=p_))
+        specs.append(TaskSpec("main", "run_command", [":prep"], pkg=p_))
+    mains = [s_.ident for s_ in specs if s_.name == "main"]
+    if rev:
+        mains.reverse()
+    specs.append(TaskSpec("all", "group", mains, pkg="top"))
+    proj = hrun.Project()
+    try:
+        proj.write_tasks(specs)
+        sched = graphs.SymSched(g, all_ok=True, on_spawn=graphs.output_writer)
+        kern = fakeos.Kernel(sched, clock=fakeos.Clock())
+        res = hrun.invoke(cli_run.main, hrun.run_ns(task_identifier="//top:all"), str(proj.root), kern)
+        D = "packages=%s listing reversed=%s" % (chosen, rev)
+        if isinstance(res.status, str):
+            g.require(False, "identifier:relative-resolution:crash:" + res.status[4:], "%s; %s" % (res.exc, D))
+        g.require(res.status == 0, "identifier:relative-resolution:run-failed", "status=%r error=%s; %s" % (res.status, res.error_class, D))
+        ran = sorted((os.path.relpath(p_.cwd, str(proj.root)).replace(".", "", 1) if os.path.relpath(p_.cwd, str(proj.root)) == "." else os.path.relpath(p_.cwd, str(proj.root)), p_.name) for p_ in kern.tasks())
+        want = sorted((p_, n) for p_ in chosen for n in ("main", "prep"))
+        g.require(ran == want, "identifier:relative-resolution:wrong-tasks-ran", "ran %s, expected %s; %s" % (ran, want, D))
+        for p_ in kern.tasks():
+            if p_.name == "main":
+                pkg = os.path.relpath(p_.cwd, str(proj.root))
+                pkg = "" if pkg == "." else pkg
+                g.require(p_.env.get("COND_DEPS") == str(proj.out / pkg / "prep.task"), "identifier:relative-resolution:wrong-package",
+                          "//%s:main got COND_DEPS=%r; %s" % (pkg, p_.env.get("COND_DEPS"), D))
+        if len(chosen) >= 2:
+            g.goal("same relative dependency string in two packages")
+        return {"nontrivial": len(chosen) >= 2, "sample": {"case": D, "ran": ran}}
+    finally:
+        proj.cleanup()
+
+
 def spaces(tier):
-    return []
+    from vlib.runner import Space
+    return [Space("relative-deps-in-several-packages", relative_fn,
+                  "every non-empty subset of packages {root, a, b, a/c}, each with main deps=[':prep'], a group over all mains "
+                  "(listing order forward/reversed), one `cond run`", depth=5, goals=["same relative dependency string in two packages"])]
 
 
 def lemmas(tier):
